@@ -159,7 +159,30 @@ class Gen:
         self.defined = names
         variants = [self.expr(0) for _ in range(n_variants)]
         rng.shuffle(defs)
+        self.last_parts = (variants, defs)
         return render_grammar("cmd", variants, defs)
+
+    def grammar_parts(self, **kw):
+        """like grammar(), but returns the trees: (variants, defs)"""
+        self.grammar(**kw)
+        return self.last_parts
+
+
+def map_tree(f, e):
+    """bottom-up rewrite of an expression tree"""
+    k = e[0]
+    if k in ("seq", "alt", "fb", "sub"):
+        e = (k, [map_tree(f, c) for c in e[1]])
+    elif k in ("opt", "many"):
+        e = (k, map_tree(f, e[1]))
+    elif k == "dd":
+        e = (k, map_tree(f, e[1]), e[2])
+    return f(e)
+
+
+def fb_to_alt(e):
+    """the `|` variant: every `||` replaced by `|`"""
+    return map_tree(lambda x: ("alt", x[1]) if x[0] == "fb" else x, e)
 
 
 def small_exprs(n, lits=("a", "b"), with_descr=True, with_nt=True):
